@@ -73,15 +73,15 @@ DecNumber(tok, maxv) == IF tok # <<>> /\ AllIn(tok, Digit) /\ ValOf(tok, 10, 0) 
 IsReg(tok) ==
   IF Len(tok) = 2 /\ tok[1] \in {82, 114} /\ tok[2] \in 48..51 THEN 1
   ELSE IF tok = <<80, 67>> THEN 1
-  ELSE IF Lower(tok) = <<112, 99>> THEN -3
-  ELSE 0
+  ELSE 0                                   \* "pc" in lower / mixed case is no register (and, beginning with PC, no identifier either)
 RegNum(tok) == IF tok = <<80, 67>> THEN 3 ELSE tok[2] - 48
 StartsWith(w, p) == Len(w) >= Len(p) /\ Sub(w, 1, Len(p) + 1) = p
 \* "ok" identifier / "rej" / "uns" (identifiers beginning with R, PC, SP in any case)
 IdentKind(tok) ==
   IF tok = <<>> \/ tok[1] \in Digit THEN "rej"
   ELSE LET lw == Lower(tok) IN
-       IF StartsWith(lw, <<114>>) \/ StartsWith(lw, <<112, 99>>) \/ StartsWith(lw, <<115, 112>>) THEN "uns" ELSE "ok"
+       \* an identifier must not begin like a register name: R.., PC.., SP.. in any case are no identifiers
+       IF StartsWith(lw, <<114>>) \/ StartsWith(lw, <<112, 99>>) \/ StartsWith(lw, <<115, 112>>) THEN "rej" ELSE "ok"
 
 \* ---- results: [k |-> "ok" | "rej" | "uns", i |-> next position, v |-> value, refs |-> referenced identifiers] ----
 Ok(i, v, refs) == [k |-> "ok", i |-> i, v |-> v, refs |-> refs]
@@ -305,8 +305,7 @@ Instr(s, m, j) ==
          LET e == WordEnd(s, k)  tok == Sub(s, k, e) IN
          IF tok = <<>> \/ tok[1] \in Digit THEN Rej
          ELSE IF IsReg(tok) = 1 THEN Rej
-         ELSE IF IsReg(tok) = -3 THEN Uns
-         ELSE IF IdentKind(tok) = "uns" THEN Uns
+         ELSE IF IdentKind(tok) = "rej" THEN Rej
          ELSE Ok(e, Ins(m, <<[k |-> "l", l |-> tok]>>), <<Lower(tok)>>)
 
 \* one line (without its line terminator): [k, node, defs, refs]
@@ -382,5 +381,5 @@ ParseText(t) ==
   ELSE [k |-> "accept", hc |-> hd.c, ast |-> [n \in 1..Len(ls) |-> ls[n].node]]
 Verdict(t) == ParseText(t).k
 
-UnspecifiedZones == "identifiers beginning with R, PC, SP (any case); pc not in upper case; a label spelled like a mnemonic; duplicate definitions; blanks inside parentheses or before a comma; more than one blank after the header; 0X / 0B; a lone CR"
+UnspecifiedZones == "a label spelled like a mnemonic; duplicate definitions; blanks inside parentheses or before a comma; more than one blank after the header; 0X / 0B; a lone CR"
 =====================================================================
